@@ -794,6 +794,81 @@ fn check_batch(live: &LiveEcho, rt: &tokio::runtime::Runtime, b: &Batch, st: &mu
     Ok(())
 }
 
+// ---- HTTPS: interleaved TLS handshakes ------------------------------------------
+
+#[derive(Clone, Debug, Serialize, Deserialize)]
+pub struct TlsScenario {
+    pub clients: Vec<(EchoReq, u64)>,
+    /// schedule: which client takes its next step (connect, handshake, request)
+    pub order: Vec<u16>,
+}
+
+fn tls_scenario() -> impl Strategy<Value = TlsScenario> {
+    let req = prop_oneof![path_spec().prop_map(EchoReq::Path), query_spec().prop_map(EchoReq::Query), (json_spec(), framing()).prop_map(|(j, f)| EchoReq::Json(j, f))];
+    (proptest::collection::vec((req, any::<u64>()), 2..6), proptest::collection::vec(any::<u16>(), 18)).prop_map(|(clients, order)| TlsScenario { clients, order })
+}
+
+fn check_tls(addr: std::net::SocketAddr, rt: &tokio::runtime::Runtime, s: &TlsScenario, st: &mut Stats) -> Result<(), Failure> {
+    use tokio::io::AsyncWriteExt;
+    let connector = crate::tls::connector();
+    rt.block_on(async {
+        let k = s.clients.len();
+        let mut step = vec![0u8; k];
+        let mut tcp: Vec<Option<tokio::net::TcpStream>> = (0..k).map(|_| None).collect();
+        let mut tls: Vec<Option<tokio_rustls::client::TlsStream<tokio::net::TcpStream>>> = (0..k).map(|_| None).collect();
+        let mut local: Vec<Option<std::net::SocketAddr>> = vec![None; k];
+        let mut schedule = vec![];
+        let mut overlapped = false;
+        for i in 0..3 * k {
+            let cands: Vec<usize> = (0..k).filter(|c| step[*c] < 3).collect();
+            let c = cands[pick_idx(s.order[i % s.order.len()], cands.len())];
+            schedule.push((c, step[c]));
+            match step[c] {
+                0 => {
+                    let t = tokio::net::TcpStream::connect(addr).await.map_err(|e| Failure::new("connect", e.to_string()))?;
+                    t.set_nodelay(true).ok();
+                    local[c] = t.local_addr().ok();
+                    tcp[c] = Some(t);
+                    // another connection accepted while this one's handshake is still outstanding?
+                    if (0..k).any(|o| o != c && step[o] == 1) {
+                        overlapped = true;
+                    }
+                }
+                1 => {
+                    let t = tcp[c].take().unwrap();
+                    let stream = crate::tls::handshake(&connector, t).await.map_err(|e| Failure::new("tls-handshake", format!("client {}: {}", c, e)))?;
+                    tls[c] = Some(stream);
+                }
+                _ => {
+                    let tag = format!("tls{}-{:x}", c, s.clients[c].1 & 0xffff);
+                    let w = render(&s.clients[c].0, &tag, s.clients[c].1);
+                    let stream = tls[c].as_mut().unwrap();
+                    stream.write_all(&w.bytes).await.map_err(|e| Failure::new("send", e.to_string()))?;
+                    stream.flush().await.ok();
+                    let mut buf = vec![];
+                    let resp = match http1::read_response_from(stream, &mut buf, false, Duration::from_secs(20)).await.resp() {
+                        Ok(r) => r,
+                        Err(e) => fail!(format!("no-response:{}", w.op), "[https] {} {}: {}", w.method, truncate(&w.target, 200), e),
+                    };
+                    judge(&w, &tag, local[c].unwrap(), &resp).map_err(|mut f| {
+                        f.msg = format!("[https, schedule {:?}] {}", schedule, f.msg);
+                        f
+                    })?;
+                    st.eval();
+                }
+            }
+            step[c] += 1;
+        }
+        st.count("tls_scenarios");
+        if overlapped {
+            st.count("overlapping_handshakes");
+            st.nontrivial(hash_of(&format!("{:?}", s)));
+        }
+        st.sample(|| json!({"clients": k, "schedule": format!("{:?}", schedule)}));
+        Ok(())
+    })
+}
+
 pub fn batch_strategy(max_clients: usize) -> impl Strategy<Value = Batch> {
     let client = (proptest::collection::vec(echo_req(), 1..6), any::<bool>(), any::<u64>(), prop_oneof![Just(0u16), 0u16..300])
         .prop_map(|(reqs, pipelined, style, pause_us)| ClientScript { reqs, pipelined, style, pause_us });
@@ -819,8 +894,19 @@ pub fn run(ctx: &mut Ctx) {
     let live2 = start_echo(&srt, 1 << 20, dropshot::HandlerTaskMode::CancelOnDisconnect);
     let n = ctx.tier.pick(150, 2000);
     ctx.phase("echo_batches_cancel_mode", n, batch_strategy(maxc), |b, st| check_batch(&live2, &rt, b, st));
+    // HTTPS: the accept path for TLS is separate code; interleave the handshakes of several clients
+    let live3 = {
+        let _g = srt.enter();
+        let cfg = dropshot::ConfigDropshot { default_request_body_max_bytes: 1 << 20, ..Default::default() };
+        crate::dynapi::start_server_tls(echo_api(), EchoCtx::default(), cfg).expect("https server")
+    };
+    let addr3 = live3.local_addr();
+    let n = ctx.tier.pick(300, 5000);
+    ctx.phase("https_interleaved_handshakes", n, tls_scenario(), |s, st| check_tls(addr3, &rt, s, st));
+    ctx.require_frac("https_interleaved_handshakes", "overlapping_handshakes", "tls_scenarios", 0.3);
     let _ = srt.block_on(live.server.close());
     let _ = srt.block_on(live2.server.close());
+    let _ = srt.block_on(live3.close());
 }
 
 // ---- helpers shared with C10 / C11 ----------------------------------------
